@@ -25,7 +25,7 @@ static char cfgdesc[200];
 static int m_seq[MAXL][MAXN], m_len[MAXL];
 static int m_where[MAXN];
 
-enum { O_PUSHF = 1, O_PUSHB, O_POPF, O_INS, O_ERASE_AFTER, O_REV, O_SORT, O_CONCAT, O_SWAP, O_CLEAR };
+enum { O_PUSHF = 1, O_PUSHB, O_POPF, O_INS, O_ERASE_AFTER, O_REV, O_SORT, O_CONCAT, O_SWAP, O_CLEAR, O_FOREACH_MOVE };
 #define OP(c, a, b, d) ((mc_op_t)((c) | ((a) << 8) | ((b) << 16) | ((d) << 24)))
 #define OC(o) ((o) & 0xff)
 #define OA(o) (((o) >> 8) & 0xff)
@@ -64,6 +64,7 @@ static void w_setup(int cfg, int thorough)
     for (l = 0; l < NL; l++) { w_ops[w_nops++] = OP(O_REV, l, 0, 0); w_ops[w_nops++] = OP(O_SORT, l, 0, 0); w_ops[w_nops++] = OP(O_CLEAR, l, 0, 0); }
     for (l = 0; l < NL; l++) for (j = 0; j < NL; j++) if (l != j) w_ops[w_nops++] = OP(O_CONCAT, l, j, 0);
     for (l = 0; l < NL; l++) for (j = l; j < NL; j++) w_ops[w_nops++] = OP(O_SWAP, l, j, 0);
+    for (l = 0; l < NL; l++) for (j = 0; j < NL; j++) if (l != j) w_ops[w_nops++] = OP(O_FOREACH_MOVE, l, j, 0);
 }
 static const char *w_config_desc(void) { return cfgdesc; }
 
@@ -88,6 +89,7 @@ static int w_enabled(mc_op_t o)
     case O_PUSHF: case O_PUSHB: return m_where[OB(o)] < 0;
     case O_INS: return m_where[OA(o)] >= 0 && m_where[OB(o)] < 0;
     case O_ERASE_AFTER: { int l = m_where[OA(o)]; return l >= 0 && m_pos(l, OA(o)) + 1 < m_len[l]; }
+    case O_FOREACH_MOVE: return m_len[OA(o)] > 0 && m_off[OA(o)] == m_off[OB(o)];
     default: return 1;
     }
 }
@@ -98,10 +100,11 @@ static int idx_of(const void *e)
     if ((uintptr_t)e < (uintptr_t)pool || d >= sizeof(struct elem) * (size_t)N || d % sizeof(struct elem)) return -1;
     return (int)(d / sizeof(struct elem));
 }
+static int sort_cookie, wrong_priv;
 static int cmp_elem(const void *a, const void *b, void *p)
 {
     int d = ((const struct elem *)a)->val - ((const struct elem *)b)->val;
-    (void)p;
+    if (p != (void *)&sort_cookie) wrong_priv++;
     if (MIXED) return d < 0 ? INT_MIN : d > 0 ? INT_MAX : 0;      /* the mixed configurations also use a comparator with extreme magnitudes */
     return d;
 }
@@ -114,6 +117,20 @@ static int cb_collect(void *e, void *p)
     seen_n++;
     if (seen_n > 4 * MAXN) return 99;
     if (cb_stop_at >= 0 && seen_n == cb_stop_at + 1) return (cb_stop_at & 1) ? -(cb_stop_at + 1) : cb_stop_at + 1;      /* stop values of both signs */
+    return 0;
+}
+/* the partition idiom: the visit function takes the element it is handed off the front of the list being walked and appends it to another list */
+static int mv_from, mv_to, mv_bad;
+static int cb_move(void *e, void *p)
+{
+    void *f;
+    (void)p;
+    if (seen_n < 4 * MAXN + 8) seen_seq[seen_n] = idx_of(e);
+    seen_n++;
+    if (seen_n > 4 * MAXN) return 99;
+    f = cstl_slist_pop_front(&L[mv_from]);
+    if (f != e) { mv_bad++; return 98; }
+    cstl_slist_push_back(&L[mv_to], e);
     return 0;
 }
 static int clr_count[MAXN], clr_bad;
@@ -197,7 +214,9 @@ static void w_apply(mc_op_t o)
     case O_SORT: {
         int r, ab2;
         if (m_len[a] > 1) MC_COUNT(K_SORT_GT1);
-        SHIM_CALL(ab, cstl_slist_sort(&L[a], cmp_elem, NULL));
+        wrong_priv = 0;
+        SHIM_CALL(ab, cstl_slist_sort(&L[a], cmp_elem, &sort_cookie));
+        if (!ab) MC_CHECK(PC13, wrong_priv == 0, "sort called the comparison function %d times with a private pointer other than the caller's", wrong_priv);
         if (ab) break;
         collect(a, -1, &ab2, &r);
         if (ab2) { ab = ab2; break; }
@@ -225,6 +244,16 @@ static void w_apply(mc_op_t o)
             for (k = 0; k < m_len[b]; k++) m_where[m_seq[b][k]] = b;
             { size_t t_ = m_off[a]; m_off[a] = m_off[b]; m_off[b] = t_; }
         }
+        break;
+    }
+    case O_FOREACH_MOVE: {
+        static volatile int r; int n0 = m_len[a];
+        seen_n = 0; mv_from = a; mv_to = b; mv_bad = 0;
+        SHIM_CALL(ab, r = cstl_slist_foreach(&L[a], cb_move, NULL));
+        if (ab) break;
+        MC_CHECK(PC13, r == 0 && mv_bad == 0 && seen_n == n0, "foreach(list %d) whose visit function moves the visited element to list %d made %d visits for %d elements (returned %d)", a, b, seen_n, n0, r);
+        for (k = 0; k < seen_n && k < n0; k++) MC_CHECK(PC13, seen_seq[k] == m_seq[a][k], "foreach (moving visitor): visit %d presented element %d, reference says %d", k, seen_seq[k], m_seq[a][k]);
+        while (m_len[a] > 0) { int i = m_seq[a][0]; m_remove(a, 0); m_insert(b, m_len[b], i); }
         break;
     }
     case O_CLEAR: {
@@ -325,6 +354,7 @@ static void w_opname(mc_op_t o, char *b, size_t n)
     case O_INS: snprintf(b, n, "insert_after(e%d, e%d)", OA(o), OB(o)); break;
     case O_ERASE_AFTER: snprintf(b, n, "erase_after(e%d)", OA(o)); break;
     case O_CONCAT: case O_SWAP: snprintf(b, n, "%s(L%d,L%d)", nm[OC(o)], OA(o), OB(o)); break;
+    case O_FOREACH_MOVE: snprintf(b, n, "foreach(L%d, visitor: pop_front(L%d); push_back(L%d, visited))", OA(o), OA(o), OB(o)); break;
     default: snprintf(b, n, "%s(L%d)", nm[OC(o)], OA(o)); break;
     }
 }
